@@ -1,7 +1,7 @@
 (* C13 — a successful sync makes the destination a superset and touches nothing else.
    Statements only; the proofs are in SV.SyncProofs / SyncDocProofs / SyncTopProofs / C13Proofs.
    The model is SV.Sync (sync.py path by path, defects included; [cfg] switches each defect). *)
-From SV Require Import C13Proofs SyncWitness.
+From SV Require Import C13Proofs CorrC15 SyncWitness.
 
 (* sync_src_unchanged — the source project is byte-identical: no step of the model writes below it
    (every entry point, every outcome, sequential or pooled, any repair state of the code) *)
@@ -42,46 +42,34 @@ Theorem C13_statepoint_untouched : forall frepr cf o deep fp sdir ddir dsp d' e,
 Proof. exact statepoint_untouched. Qed.
 Print Assumptions C13_statepoint_untouched.
 
-(* sync_superset (existing job): after a successful real run every source file that was absent from the
-   destination is present byte-identically with a fresh mtime — at the top level always, below it when
-   recursive — provided no name on its path is excluded or on filecmp's ignore list.
-   With fix_ignore the last side condition is vacuous; for /repo as it is the statement without it is false:
-   C13_sync_superset_refuted_* *)
-Theorem C13_sync_superset_partial : forall frepr cf p fuel o deep sdir ddir subdir d' c m,
+(* sync_superset (existing job) — FULL, for /repo as it is (cfg_current; the repairs 769373d "compares all file
+   names" and fbe1a6a "only the state point and document files themselves are excluded" have landed): after a
+   successful real run every source file that was absent from the destination is present byte-identically with
+   a fresh mtime — at the top level always, below it when recursive — unless a name on its path is excluded,
+   where "excluded" is: a user pattern matches, or the name is the state point / document file itself *)
+Theorem C13_sync_superset : forall frepr p fuel o deep sdir ddir subdir d' c m,
   wf_node (Dir sdir) = true -> o_dry_run o = false ->
-  sync_ws frepr cf fuel o deep sdir ddir subdir = (d', None) ->
+  sync_ws frepr cfg_current fuel o deep sdir ddir subdir = (d', None) ->
   lookup_path p (Dir sdir) = Some (File c m) -> absent_in p ddir = true ->
-  (o_recursive o = true \/ length p = 1%nat) ->
-  forallb (fun k => negb (ignored cf k)) p = true ->
-  clear_path cf o p = true ->
+  (o_recursive o = true \/ length p = 1%nat) -> clear_path cfg_current o p = true ->
   lookup_path p (Dir d') = Some (File c NOW).
-Proof. exact ws_superset. Qed.
-Print Assumptions C13_sync_superset_partial.
-
-(* full statement for the repaired comparison: no side condition on ignored names *)
-Theorem C13_sync_superset : forall frepr cf, fix_ignore cf = true ->
-  forall p fuel o deep sdir ddir subdir d' c m,
-  wf_node (Dir sdir) = true -> o_dry_run o = false ->
-  sync_ws frepr cf fuel o deep sdir ddir subdir = (d', None) ->
-  lookup_path p (Dir sdir) = Some (File c m) -> absent_in p ddir = true ->
-  (o_recursive o = true \/ length p = 1%nat) -> clear_path cf o p = true ->
-  lookup_path p (Dir d') = Some (File c NOW).
-Proof. exact ws_superset_fixed. Qed.
+Proof. exact ws_superset_current. Qed.
 Print Assumptions C13_sync_superset.
 
-Theorem C13_sync_superset_refuted_default_ignores :
-  exists i, ob_exn (c_obs (model_case nofl cfg_current i)) = None
-            /\ superset nofl i (c_obs (model_case nofl cfg_current i)) = false
-            /\ holds_C13 nofl (model_case nofl cfg_fixed i) = true.
-Proof. exists wit_C13_w1. exact w1_C13_facts. Qed.
-Print Assumptions C13_sync_superset_refuted_default_ignores.
+Theorem C13_excluded_means : forall o n,
+  excluded cfg_current o n =
+  (o_exclude o n || str_eqb FN_SP n || match o_docsync o with DS_copy => false | _ => str_eqb FN_DOC n end).
+Proof. exact excluded_current. Qed.
+Print Assumptions C13_excluded_means.
 
-Theorem C13_sync_superset_refuted_implicit_patterns :
-  exists i, ob_exn (c_obs (model_case nofl cfg_current i)) = None
-            /\ superset nofl i (c_obs (model_case nofl cfg_current i)) = false
-            /\ holds_C13 nofl (model_case nofl cfg_fixed i) = true.
-Proof. exists wit_C13_w2. exact w2_C13_facts. Qed.
-Print Assumptions C13_sync_superset_refuted_implicit_patterns.
+(* regression: the former counterexamples (a source-only file named 'tags' / 'signac_statepoint.json.bak', and
+   the witnesses of the repaired C14 / C15 defects) satisfy all three oracles in the model of /repo now *)
+Theorem C13_former_counterexamples_hold :
+  forallb (fun i => holds_C13 nofl (model_case nofl cfg_current i) && holds_C14 nofl (model_case nofl cfg_current i)
+                    && holds_C15 nofl (model_case nofl cfg_current i))
+          [wit_C13_w1; wit_C13_w2; wit_C14_w1; wit_C15_w1; wit_C15_w2; wit_C15_w3; wit_C15_w4; wit_C15_w6] = true.
+Proof. exact repaired_witnesses_hold. Qed.
+Print Assumptions C13_former_counterexamples_hold.
 
 (* sync_superset (new job): a job missing in the destination is cloned whole — every path of the source job
    (sub-directories included, whatever `recursive` says) leads to the same bytes *)
@@ -128,6 +116,6 @@ Print Assumptions C13_model_holds.
 Example C13_example :
   let i := wit_C13_w2 in
   forallb (fun kn => wf_node (snd kn)) (p_ws (i_src i)) = true
-  /\ ob_exn (c_obs (model_case nofl cfg_fixed i)) = None
-  /\ holds_C13 nofl (model_case nofl cfg_fixed i) = true.
+  /\ ob_exn (c_obs (model_case nofl cfg_current i)) = None
+  /\ holds_C13 nofl (model_case nofl cfg_current i) = true.
 Proof. vm_compute. repeat split. Qed.
